@@ -46,5 +46,8 @@ LEVEL_TEXT = ("The property is REFUTED on the faithful model (C03_flap_refuted) 
               "(C03_failure_class_exact, C03_known_class_behaviour). Proved to hold: not-re-announced routes stay withdrawn; sources with fresh ids (BGP) are exact. "
               "Known finding C03-1 is reproduced on the real code on every run.")
 DESIGN_REF = "DESIGN.md section 6, C03"
-LEVEL_NOTE = "Trusted: as C01. The defect is recorded, not repaired: clearing rotonda-store's withdrawn marker safely needs a per-id sweep of the store (see DESIGN.md)."
+LEVEL_NOTE = ("Trusted: as C01. The defect is recorded, not repaired: clearing rotonda-store's withdrawn marker safely needs a per-id sweep of the store (see DESIGN.md). "
+              "The outage 'the bmp-tcp-in unit is taken out of the configuration by a reload and put back by a later one' is exercised end to end (engine `e2e`, ops J / JL): "
+              "the removal withdraws the routes of every session of the unit (C03_removed_unit_withdraws_its_routes; seeded C03-b1), the unit that comes back is a new parent, "
+              "its routers get ids no source had (C03_router_of_added_unit_is_a_new_source), so their re-announced routes are active and C03-1 does not apply to them.")
 TECHNIQUE = "Coq refutation witness + exact characterisation of the failure class by induction over update histories + correspondence"
